@@ -117,7 +117,7 @@ def run(tier, replay=None):
     # ---- (c) histories
     cand = [v for v in vectors if v['family'] == 'world' and len(v['hex']) < 4000]
     pool = S.good_pool(binary, cand)
-    n_seq, max_len = (200, 12) if tier == 'quick' else (3000, 40)
+    n_seq, max_len = (200, 12) if tier == 'quick' else (12000, 40)
     seqs = S.make_sequences(corpus, pool, n_seq, max_len, rng)
     rows = []
     for s in seqs:
